@@ -241,6 +241,12 @@ namespace occa {
             state.pushOperator(&opToken);
           }
           else if (opToken.opType() & operatorType::pairEnd) {
+            // #if 1)
+            if (state.scopedStates.size() < 2) {
+              state.hasError = true;
+              opToken.printError("Could not find an opening pair");
+              return;
+            }
             state.pushOperator(&opToken);
             state.popPair();
             closePair();
@@ -459,11 +465,11 @@ namespace occa {
 
         const int argCount = (int) args.size();
         if (argCount == 1) {
-          args[0]->token->printError("Must also have threads per block"
-                                     " as the second argument");
+          opToken.printError("Must also have threads per block"
+                             " as the second argument");
           state.hasError = true;
         } else if (argCount > 2) {
-          args[0]->token->printError("Kernel call only takes 2 arguments");
+          opToken.printError("Kernel call only takes 2 arguments");
           state.hasError = true;
         }
 
